@@ -145,6 +145,7 @@ type tScreen struct {
 	escaped      bool
 	buttondn     bool
 	finiOnce     sync.Once
+	lifecycle    sync.Mutex // serialises Suspend, Resume and the shutdown
 	enablePaste  string
 	disablePaste string
 	enterUrl     string
@@ -685,6 +686,8 @@ func (t *tScreen) Fini() {
 }
 
 func (t *tScreen) finish() {
+	t.lifecycle.Lock()
+	defer t.lifecycle.Unlock()
 	close(t.quit)
 	t.finalize()
 	t.Lock()
@@ -2031,11 +2034,17 @@ func (t *tScreen) SetSize(w, h int) {
 func (t *tScreen) Resize(int, int, int, int) {}
 
 func (t *tScreen) Suspend() error {
+	// disengage has to drop the screen lock while it waits for the
+	// goroutines; a Resume or Fini must not get in between
+	t.lifecycle.Lock()
+	defer t.lifecycle.Unlock()
 	t.disengage()
 	return nil
 }
 
 func (t *tScreen) Resume() error {
+	t.lifecycle.Lock()
+	defer t.lifecycle.Unlock()
 	return t.engage()
 }
 
